@@ -34,7 +34,15 @@ EXPLANATION = (
     "expressions, tuple assignments and module / class constants, and branches decided by valuation of the guard 'the found-plan marker "
     "is in the log' (re.search of the marker compared with None or used as truth value, marker in text, text.find(marker) compared "
     "with -1, directly or through a compiled pattern / boolean local / helper); reaching definitions are recomputed on the part of "
-    "the CFG that the valuation allows. "
+    "the CFG that the valuation allows. Before anything is judged the flattened body is brought into a normal form and flattened again "
+    "until nothing changes: calls of callable values are replaced by what they evaluate (lambdas and one-expression local functions, "
+    "module-level NAME = lambda / operator.methodcaller / attrgetter / itemgetter / functools.partial / TEMPLATE.format, operator.* "
+    "functions, str.lower(x)), map / filter become generator expressions, a loop or comprehension over a one-generator comprehension is "
+    "fused with it, private generator helpers consumed inside an inlined helper are expanded, constant dicts indexed with a constant "
+    "(or a {True:, False:} table indexed with a boolean) give the selected value, fields / one-expression properties and methods of a "
+    "freshly built NamedTuple / dataclass record give the constructor argument; values are additionally followed through table rows "
+    "(loop variables over a constant table, TABLE[key] with the keys possible under the valuation, next(generator, default)) and a "
+    "test whose value is a constant chosen by the marker test (a classification record / row) counts as the marker test itself. "
     "C19.regex: the step pattern is the one that reaches the finditer / findall call (re.<fn>(pattern, ...) or a compiled pattern; "
     "literal, module or class constant) whose matches become the returned steps; its regex AST (re._parser) is inspected: the step "
     "prefix is a digit followed by ':', the capture group is a repeat over a character class none of whose members can match a line "
@@ -192,6 +200,45 @@ class _Model:
         self._plain = U.View(repo, self.f, L.Guards(self.f, lambda e: None), {})
         self.G = L.Guards(self.f, self._marker_atom if with_marker else (lambda e: None))
         self._views: Dict[Tuple, U.View] = {}
+        if with_marker and "found" in self.G.atoms_seen:
+            self._derive_atoms()
+
+    def _derive_atoms(self) -> None:
+        """a test that is not a marker test itself but whose value is a constant decided by the marker test (a classification
+        record / table row chosen by it: `if outcome.has_plan:`, `if kind == "plan":`) is the same atom: it evaluates to a truthy
+        constant on every path with the marker present and to a falsy one on every path with the marker absent (or the reverse)"""
+        base = self.G
+        vt = U.View(self.repo, self.f, base, {"found": True, "nonempty": True})
+        vf = U.View(self.repo, self.f, base, {"found": False})
+        tests: List[ast.AST] = []
+        for n in ast.walk(self.f.node):
+            if isinstance(n, (ast.If, ast.While, ast.IfExp, ast.Assert)):
+                tests.append(n.test)
+            elif isinstance(n, ast.comprehension):
+                tests += list(n.ifs)
+        derived: Dict[int, str] = {}
+        todo = list(tests)
+        while todo:
+            e = todo.pop()
+            if isinstance(e, ast.BoolOp):
+                todo += list(e.values)
+                continue
+            if isinstance(e, ast.UnaryOp) and isinstance(e.op, ast.Not):
+                todo.append(e.operand)
+                continue
+            if isinstance(e, ast.Constant) or self._marker_atom(e) is not None:
+                continue
+            a, b = vt.const_values(e), vf.const_values(e)
+            if not a or not b:
+                continue
+            ta, tb = {bool(x) for x in a}, {bool(x) for x in b}
+            if ta == {True} and tb == {False}:
+                derived[id(e)] = "found"
+            elif ta == {False} and tb == {True}:
+                derived[id(e)] = "!found"
+        if derived:
+            self._derived = derived     # keeps the ids meaningful: the nodes live in self.f.node
+            self.G = L.Guards(self.f, lambda e: self._marker_atom(e) or derived.get(id(e)))
 
     def view(self, **valuation) -> U.View:
         if valuation.get("found"):
@@ -282,6 +329,7 @@ class _Model:
     def steps(self, v: U.View, seq: S.Seq, kind: str, node: ast.AST) -> _Steps:
         out = _Steps()
         out.node = node
+        seq = self._peel(v, seq, out)
         if seq.ordered:
             out.problems.append(f"the steps are passed through {seq.ordered}() -- match order is lost")
         if len(seq.items) != 1 or not isinstance(seq.items[0], S.RepItems):
@@ -343,6 +391,37 @@ class _Model:
                                 ("step = group(1).lower().strip()" if kind == "ff" else "line = <input line>.lower()"))
         out.valid = not out.problems and source_ok
         return out
+
+    def _peel(self, v: U.View, seq: S.Seq, out: _Steps) -> S.Seq:
+        """a repetition that passes every element of another list on unchanged (`[x for x in steps]`, `map(str, steps)`, a loop
+        that appends each element) denotes that list; a filter / early exit on the way is recorded"""
+        for _ in range(4):
+            if len(seq.items) != 1 or not isinstance(seq.items[0], S.RepItems):
+                return seq
+            rep = seq.items[0]
+            if len(rep.items) != 1 or not isinstance(rep.items[0], S.Hole):
+                return seq
+            loop = rep.loop
+            target, it, enum = v.loop_var(loop)
+            cs = v.chains(rep.items[0].node)
+            if enum or not cs or not all(not ops and v.bound_by(base.node, loop, target) for ops, base in cs):
+                return seq
+            try:
+                inner = v.lists(it)
+            except (KeyError, RecursionError):
+                return seq
+            if len(inner) != 1 or inner[0][0] != "seq":
+                return seq
+            isq = inner[0][1]
+            if not isq.items or not all(isinstance(x, S.RepItems) and x.loop.target is not None for x in isq.items):
+                return seq
+            if loop.conds or getattr(loop, "guards", None):
+                out.problems.append("a step is passed on only under a condition -- not every match / line yields a step")
+            esc = _escapes(loop.node)
+            if esc:
+                out.problems.append(f"the repetition is left / an iteration is skipped by `{esc}` -- not every match / line yields a step")
+            seq = S.Seq(isq.items, seq.ordered or isq.ordered)
+        return seq
 
     def _source(self, v: U.View, loop: S.Loop, kind: str, out: _Steps, quiet: bool = False):
         """what the repetition runs over.  -> (element variable, ok, regex function, capture groups of the pattern)"""
@@ -463,8 +542,12 @@ def _result_pairs(v: U.View) -> List[Tuple[ast.Return, Optional[ast.AST], Option
             continue
         for leaf in v.alts(ret.value):
             n = leaf.node
+            rec = U.record_fields(v.repo, v.f.mod.name, n, v._local_name) if leaf.mod is None else None
             if isinstance(n, ast.Tuple) and len(n.elts) == 2 and leaf.mod is None:
                 out.append((ret, n.elts[0], n.elts[1]))
+            elif rec is not None and len(rec) == 2:       # a NamedTuple / record (status, actions)
+                st, acts = rec.values()
+                out.append((ret, st, acts))
             else:
                 out.append((ret, None, None))
     return out
@@ -986,15 +1069,13 @@ def rule_cache(repo: Repo, rid: str = "C19.cache", module_filter=None, manual: b
 
 def rule_inplace(repo: Repo) -> RuleResult:
     """a parser that rewrites a file in place must have read it before it opens it for writing (opening with 'w' truncates)"""
-    from ..inline import flatten
     r = RuleResult("C19.inplace", "a plan file that is rewritten in place is read completely before it is opened for writing",
                    "the written plan holds exactly the steps that were read")
     checked = 0
     for spec in ("ENHSPParser.parse_plan", "MetricFFParser.parse_plan"):
-        f0 = repo.func_opt(spec)
-        if f0 is None:
+        if repo.func_opt(spec) is None:
             continue
-        f = flatten(repo, f0, 6, {"parse_plan_content", "_parse_plan_content", "get_solving_status", "_open_plan_file"})
+        f = U.anchor(repo, spec)       # every helper of the class / module in place, generator helpers and callable values expanded
         p = L.prov(repo, f)
         g = C.cfg_of(f.node)
 
